@@ -116,7 +116,7 @@ def expr_src(e):
 _QCACHE = {}
 
 
-FIELDS = ["x", "y", "z", "c", "flag"]
+FIELDS = ["x", "y", "e", "c", "flag"]      # "e" is also a name of the math module: a field must shadow it
 
 
 def expr_rec(e, rec, consts=None):
@@ -593,6 +593,8 @@ class Machine:
                         c = hg.Factory.fromJsonFile(path)
                     finally:
                         os.unlink(path)
+                elif mode == "ed":
+                    c = ed_rebuild(p[op[1]])
                 else:
                     c = hg.Factory.fromJson(p[op[1]].toJson())
                 ob = [0] + snap(c)
@@ -774,7 +776,7 @@ def dfhist(m, op):
     _, cols, dtypes, specs, rows, extra = op
     key = ":".join(cols)
     allcols = extra.get("columns", cols)
-    df = dfspec.frame(rows, allcols, dtypes, extra.get("ts_unit", "ns"))
+    df = dfspec.frame(rows, allcols, dtypes, extra.get("ts_unit", "ns"), extra.get("index"))
     before = df.copy(deep=True)
     call_specs = list(specs)
     bs = {}
@@ -960,6 +962,50 @@ def wide_sparse(h, limit=200000):
         return True
 
 
+_ED_PARAMS = {"entries", "contentType", "binsAsDict", "pairsAsDict", "self", "values"}
+
+
+def ed_rebuild(h):
+    """the immutable twin of h built directly with the public .ed() constructors - what fromJson does
+    after parsing, but through the keyword / positional forms a user would write (default arguments
+    included); quantity names are copied node by node"""
+    n = h.name
+
+    def named_(out):
+        if hasattr(h, "quantity") and hasattr(out, "quantity"):
+            out.quantity.name = h.quantity.name
+        return out.specialize() if hasattr(out, "specialize") else out
+    R = ed_rebuild
+    if n in ("Count", "Sum", "Average", "Deviate", "Minimize", "Maximize", "Bag"):
+        # (the leaves' ed() forms have no optional parameters: same path as the reader)
+        return type(h).fromJsonFragment(h.toJsonFragment(False), None)
+    if n == "Bin":
+        return named_(hg.Bin.ed(h.low, h.high, h.entries, [R(v) for v in h.values], R(h.underflow), R(h.overflow), R(h.nanflow)))
+    if n == "SparselyBin":
+        ct = h.toJsonFragment(False)["bins:type"]
+        return named_(hg.SparselyBin.ed(h.binWidth, h.entries, ct, {k: R(v) for k, v in h.bins.items()}, R(h.nanflow), h.origin))
+    if n in ("CentrallyBin", "IrregularlyBin", "Stack"):
+        return named_(getattr(hg, n).ed(h.entries, [(c, R(v)) for c, v in h.bins], R(h.nanflow)))
+    if n == "Fraction":
+        return named_(hg.Fraction.ed(h.entries, R(h.numerator), R(h.denominator)))
+    if n == "Select":
+        return named_(hg.Select.ed(h.entries, R(h.cut)))
+    if n == "Categorize":
+        ct = h.toJsonFragment(False)["bins:type"]
+        bins = {str(k): R(v) for k, v in h.bins.items()}
+        if any(k in _ED_PARAMS or not k.isidentifier() for k in bins) or len(bins) != len(h.bins):
+            return named_(hg.Categorize.ed(h.entries, ct, binsAsDict=bins))
+        return named_(hg.Categorize.ed(h.entries, ct, **bins))
+    if n in ("Label", "UntypedLabel"):
+        pairs = {k: R(v) for k, v in h.pairs.items()}
+        if any(k in _ED_PARAMS or not k.isidentifier() for k in pairs):
+            return getattr(hg, n).ed(h.entries, pairsAsDict=pairs).specialize()
+        return getattr(hg, n).ed(h.entries, **pairs).specialize()
+    if n in ("Index", "Branch"):
+        return getattr(hg, n).ed(h.entries, *[R(v) for v in h.values]).specialize()
+    raise ValueError(n)
+
+
 class IdMachine(Machine):
     """like Machine, and after every op also observes the identity partition of the whole pool
     and the snapshots of all entries (for the non-interference oracle)"""
@@ -982,6 +1028,11 @@ class IdMachine(Machine):
             a, b = self.pool[op[1]], self.pool[op[2]]
             reads = [lambda: a == b, lambda: a != b, lambda: hash(a), lambda: repr(a), lambda: a.toJson(),
                      lambda: a.toJsonString(), lambda: a.children, lambda: a.n_dim, lambda: a.zero(), lambda: a.copy()]
+            if hasattr(a, "quantity"):
+                # the wrapper functions applied to a quantity an aggregator already holds return new
+                # wrappers (or raise for a second name); they never change the one they are given
+                reads += [lambda: hg.util.named("renamed_by_a_probe", a.quantity),
+                          lambda: hg.util.serializable(a.quantity), lambda: hg.util.cached(a.quantity)]
             if not wide_sparse(a):
                 # (the range accessors of a SparselyBin allocate one array cell per index between the
                 # first and the last filled bin: gigabytes when two data are 1e9 bin widths apart)
@@ -1004,7 +1055,14 @@ class IdMachine(Machine):
             # a new collection built (public constructor) over an existing, possibly already filled
             # and checked, tree and one of its inner nodes: the constructor keeps the objects
             h = self.pool[op[1]]
-            root = hg.Branch(h, get_path(h, op[2]))
+            x = get_path(h, op[2])
+            mode = op[3] if len(op) > 3 else "branch"
+            if mode == "edlabel":
+                root = hg.Label.ed(0.0, a=x, b=x)          # the immutable form takes live objects too
+            elif mode == "edindex":
+                root = hg.Index.ed(0.0, x, x)
+            else:
+                root = hg.Branch(h, x)
             self.pool.append(root)
             ob = [0] + snap(root) + [-777] + self.pids()
         else:
